@@ -4,7 +4,7 @@ import inspect
 from hypothesis import strategies as st
 
 from .. import observe as O
-from ..pretty import parse_row
+from ..pretty import parse_row, strip_ansi
 from .common import layout
 
 ID = "C17"
@@ -77,36 +77,41 @@ def check_word(ctx, L, tname, v, masks=None):
     rows = ctx.guard(lambda: list(Pretty.unmarshal([MarshalEvent(path, T, x)])), "C17:pretty", payload)
     if rows is None:
         return
+    judge_rows(ctx, tname, v, bits, masks, rows, payload, "word", 2)
+
+
+def judge_rows(ctx, tname, v, bits, masks, rows, payload, head_name, depth, where=""):
+    """The rows printed for one attribute word: the word's row, then one row per field with its bits at their positions."""
     parsed = [parse_row(r) for r in rows]
     if any(p is None for p in parsed) or not parsed:
-        ctx.problem("C17:rows-unparsable", f"{tname}({v:#x}): rows {rows!r}", payload)
+        ctx.problem("C17:rows-unparsable", f"{tname}({v:#x}){where}: rows {rows!r}", payload)
         return
     head, attr_rows = parsed[0], parsed[1:]
-    if head.hex != v.to_bytes(bits // 8, "big").hex() or head.name != "word":
-        ctx.problem("C17:head-row", f"{tname}({v:#x}): first row {head}", payload)
+    if head.hex != v.to_bytes(bits // 8, "big").hex() or (head_name is not None and head.name != head_name):
+        ctx.problem("C17:head-row", f"{tname}({v:#x}){where}: first row {head}", payload)
         return
     if len(attr_rows) != len(masks):
-        ctx.problem("C17:row-count", f"{tname}({v:#x}): {len(attr_rows)} bit rows for {len(masks)} fields", payload)
+        ctx.problem("C17:row-count", f"{tname}({v:#x}){where}: {len(attr_rows)} bit rows for {len(masks)} fields", payload)
         return
     binary = format(v, f"0{bits}b")
     cover = [0] * bits
     names = set()
     for r in attr_rows:
         pattern = r.value.split(" ")[0]
-        if r.name not in masks or r.name in names or r.depth != 2 or r.hex != "" or r.type != "":
-            ctx.problem("C17:row-shape", f"{tname}({v:#x}): unexpected bit row {r}", payload)
+        if r.name not in masks or r.name in names or r.depth != depth or r.hex != "" or r.type != "":
+            ctx.problem("C17:row-shape", f"{tname}({v:#x}){where}: unexpected bit row {r}", payload)
             return
         names.add(r.name)
         m = masks[r.name]
         want = "".join(binary[i] if (m >> (bits - 1 - i)) & 1 else "." for i in range(bits))
         if pattern != want:
-            ctx.problem("C17:row-bits", f"{tname}({v:#x}).{r.name}: row shows {pattern!r}, expected {want!r}", payload)
+            ctx.problem("C17:row-bits", f"{tname}({v:#x}).{r.name}{where}: row shows {pattern!r}, expected {want!r}", payload)
             return
         for i, ch in enumerate(pattern):
             if ch != ".":
                 cover[i] += 1
     if any(c != 1 for c in cover):
-        ctx.problem("C17:overlay", f"{tname}({v:#x}): bit positions covered {cover} times", payload)
+        ctx.problem("C17:overlay", f"{tname}({v:#x}){where}: bit positions covered {cover} times", payload)
 
 
 def check_in_context(ctx, L, tname, v, other_types):
@@ -169,6 +174,51 @@ def check_in_context(ctx, L, tname, v, other_types):
                 return
 
 
+def check_cli_terminal(ctx, L, tname, v, columns, masks=None):
+    """The same word printed by `tpmstream convert` with its output on a (pseudo) terminal `columns` wide: the terminal may
+    wrap long rows, the program must still print every row completely."""
+    import fcntl
+    import os
+    import pty
+    import struct
+    import subprocess
+    import sys
+    import tempfile
+    import termios
+
+    T = O.lib_type(tname)
+    bits = 8 * L.width(tname)
+    masks = masks or live_masks(T)
+    payload = {"type": tname, "value": v, "terminal_columns": columns}
+    with tempfile.TemporaryDirectory(prefix="tv-c17-") as d:
+        with open(os.path.join(d, "word.hex"), "w") as f:
+            f.write(v.to_bytes(bits // 8, "big").hex() + "\n")
+        master, slave = pty.openpty()
+        fcntl.ioctl(slave, termios.TIOCSWINSZ, struct.pack("HHHH", 50, columns, 0, 0))
+        env = dict(os.environ, PYTHONPATH=O.SRC, PYTHONHASHSEED="0", PYTHONIOENCODING="utf-8", COLUMNS=str(columns), TERM="xterm")
+        p = subprocess.Popen([sys.executable, "-m", "tpmstream", "convert", "word.hex", "--in", "hex", "--type", tname], stdout=slave, stderr=subprocess.PIPE, stdin=subprocess.DEVNULL, env=env, cwd=d)
+        os.close(slave)
+        chunks = []
+        while True:
+            try:
+                b = os.read(master, 65536)
+            except OSError:
+                break
+            if not b:
+                break
+            chunks.append(b)
+        code = p.wait(timeout=300)
+        err = p.stderr.read().decode("utf-8", "replace")
+        os.close(master)
+    ctx.case(("cli-terminal", tname, v, columns), True, sample={"type": tname, "value": hex(v), "terminal_columns": columns})
+    ctx.count(f"cli-terminal-runs:{columns}")
+    if code != 0:
+        ctx.problem("C17:cli-terminal:exit", f"`tpmstream convert word.hex --in hex --type {tname}` ({v:#x}) on a {columns}-column terminal: exit status {code}, stderr {err[-300:]!r}", payload)
+        return
+    rows = [r for r in b"".join(chunks).decode("utf-8", "replace").replace("\r\n", "\n").split("\n") if strip_ansi(r).strip()]
+    judge_rows(ctx, tname, v, bits, masks, rows, payload, None, 1, where=f" printed by the CLI on a {columns}-column terminal")
+
+
 def words_32(masks, bits):
     full = (1 << bits) - 1
     vals = {0, full}
@@ -206,6 +256,10 @@ def run_shard(ctx):
                 check_in_context(ctx, L, t, v, types)
 
         ctx.run_plain(loop, f"words:{t}")
+        if i % ctx.nshards == ctx.shard:
+            full = (1 << bits) - 1
+            for columns, v in ((180, full), (150, full & 0x5A5A5A5B), (100, 1), (80, full)):
+                ctx.run_plain(lambda t=t, v=v, columns=columns, masks=masks: check_cli_terminal(ctx, L, t, v, columns, masks), f"cli-terminal:{t}:{columns}")
         if bits > 8:
             n = ctx.share(2000 if ctx.quick() else 50000)
             ctx.run_given(st.integers(0, (1 << bits) - 1), lambda v, t=t, masks=masks: check_word(ctx, L, t, v, masks), n, name=f"random:{t}")
@@ -222,7 +276,9 @@ def finalize(merged):
 
 def replay(ctx, payload):
     L = layout()
-    if "value" in payload:
+    if "terminal_columns" in payload:
+        check_cli_terminal(ctx, L, payload["type"], payload["value"], payload["terminal_columns"])
+    elif "value" in payload:
         check_word(ctx, L, payload["type"], payload["value"])
     else:
         check_masks(ctx, L, payload["type"])
